@@ -32,7 +32,9 @@ def purity_formulas(tier):
     I = ((0, 1), (1, 2), (0, 5)) if tier == 'quick' else F.I_FULL + ((0, 5),)
     U = F.unary_ops(I)
     B = F.binary_ops(I)
-    fs = list(F.F(1, U, B, [(PX, PY, X), (X, Y, X)]))
+    CL = ('pred', '<=', F.C1, X)                      # constant on the left
+    CM = ('pred', '>=', ('*', F.C2, X), ('-', F.C1, Y))
+    fs = list(F.F(1, U, B, [(PX, PY, X), (X, Y, X), (CL, CM, X)]))
     f2 = [f for f in F.F(2, U, B, [(X, Y, X)]) if F.size(f) == 2]
     fs += f2[::5] if tier == 'quick' else f2
     return fs
